@@ -12,7 +12,7 @@
    (ssrc, start + n) exactly the received flag and ECN of the log entry start + n
    and an arrival time at most 1/1024 s after the recorded one. *)
 From IV Require Import Base.Word Model.TwccChunk Proofs.TwccChunkProofs Proofs.TwccFeedbackProofs.
-From IV Require Import Model.FbAdapter Spec.FbSpec Proofs.FbAdapterProofs.
+From IV Require Import Model.FbAdapter Spec.FbSpec Proofs.FbAdapterProofs Proofs.FbAdapterMore.
 From Coq Require Import ZifyBool.
 Ltac Zify.zify_post_hook ::= Z.div_mod_to_equations.
 
@@ -196,5 +196,28 @@ Proof.
   rewrite Hpr, Hpd, <- Href. lia.
 Qed.
 
-(* every feedback the Recorder's packet builder makes is such a trace: the walk
-   of maybeBuildFeedbackPacket is a sequence of accepted addReceived calls *)
+(* end to end with the adapter's own history: after ANY operation list, feeding a builder
+   feedback to the adapter (one more step of the history) acknowledges, for every recorded
+   arrival (s, t), the most recent send with TWCC number s among the 250 most recently sent
+   distinct packets, with an arrival time within 125 us of t *)
+Theorem roundtrip_twcc_end_to_end reftime ops b t0 tr f sender media fbc :
+  0 <= b < 65536 -> 0 <= Z.quot t0 64000 < 16777216 ->
+  Forall (fun e : Z * Z => 0 <= fst e < 65536) tr ->
+  fb_adds (fb_new b t0) tr = Some f ->
+  let p := fb_get_rtcp sender media fbc f in
+  let H := recent 250 (send_log ops []) in
+  exists acks,
+    snd (step reftime (final reftime [] ops)
+              (FbTwcc (p_base p) (p_count p) (p_ref p) (map chunk_of_wire (p_chunks p)) (map snd (p_deltas p))))
+    = (0, acks) /\
+    Forall (fun e : Z * Z =>
+      let '(s, t) := e in
+      exists k T, (k < length acks)%nat /\ (p_base p + Z.of_nat k) mod 65536 = s /\
+        Z.abs (T - t * 1000) <= 125000 /\
+        nth k acks zero_ack = match hget H 0 s with Some a => set_arr a T | None => zero_ack end) tr.
+Proof.
+  intros Hb Hr Htr Hadds p H.
+  destruct (roundtrip_twcc b t0 tr f sender media fbc H Hb Hr Htr Hadds) as (acks & E & Hall).
+  exists acks. split; [|exact Hall].
+  cbn [step]. rewrite (Proofs.FbAdapterMore.history_is_recent_250 reftime ops). fold H. fold p in E. rewrite E. reflexivity.
+Qed.
